@@ -381,8 +381,14 @@ def dict_set(I, ctx, ref, key, val, node):
             return
         dict_to_sym(I, ctx, ref)
     kz = h.kt.to_z(key, ctx)
+    val = I.resolve(ctx, val)           # an optional value splits into its two cases here
+    try:
+        vz = h.vt.to_z(val, ctx)
+    except TypeError:
+        raise Unsupported('value of another type (%s) stored into a dict of %s'
+                          % (getattr(val, 'kind', type(val).__name__), h.vt), node)
     h.dom = z3.SetAdd(h.dom, kz)
-    h.arr = z3.Store(h.arr, kz, h.vt.to_z(val, ctx))
+    h.arr = z3.Store(h.arr, kz, vz)
 
 
 def dict_update(I, ctx, ref, other, node, kwargs=None):
